@@ -251,20 +251,25 @@ class AsyncIOClient(ABC):
         Args:
             nmea2000Message: The NMEA2000Message object to send.
         """
+        writer = None
         try:
             msgs = self._encode_impl(nmea2000Message)
             assert self.writer is not None
             async with self._send_lock:
+                # all packets of a message go to the link that was current when its first packet was written,
+                # also if the client reconnects while this sender is suspended in drain()
+                writer = self.writer
                 for msg in msgs:
-                    self.writer.write(msg)
-                    await self.writer.drain()
+                    writer.write(msg)
+                    await writer.drain()
                     self.logger.debug(f"Sent: {msg.hex()}")
 
         except (ValueError, TypeError, NotImplementedError) as ve:
                 # TypeError: a header attribute (priority, source, destination) that is None or not a number
                 self.logger.warning(f"Failed to encode message. Error {ve}")
         except Exception as ex:
-            if self._state != State.CLOSED:
+            # a failure on a link that has been replaced in the meantime says nothing about the current one
+            if self._state != State.CLOSED and (writer is None or writer is self.writer):
                 self.logger.error(f"Connection lost while sending. Error {ex}. Reconnecting...", exc_info=True)
                 await self._update_state(State.DISCONNECTED)
                 asyncio.create_task(self.connect())
